@@ -237,7 +237,7 @@ def run_assign(case):
     if case.get("old") is not None:
         o.x = build(case["old"], objs)
     if case.get("sealed"):
-        o.__xpm__.seal(ConfigWalkContext())
+        o.__xpm__._sealed = True  # what Sealer.postprocess does (the walk itself refuses non-str dict keys)
     out["before"] = stored(o, objs)
     try:
         o.x = value
@@ -304,7 +304,12 @@ def main():
     try:
         with experiment(wd, "c15", port=-1) as xp:
             for case in payload.get("assign", []):
-                res["assign"].append(run_assign(case))
+                try:
+                    res["assign"].append(run_assign(case))
+                except Exception:
+                    if os.environ.get("C15_DEBUG"):
+                        print("FAILED CASE", json.dumps(case), file=sys.stderr)
+                    raise
             for case in payload.get("graphs", []):
                 res["graphs"].append(run_graph(case, xp))
         res["experiment_exit"] = "ok"
